@@ -37,7 +37,7 @@ def attach(run):
 
         if run.adapter.name in refine.NEEDS:
             mons.append(refine.RefinementMonitor(run))
-    if cl & {"C10.b", "C10.c"} and run.plan.get("supply_targets") and run.adapter.name in ("td3", "td3_lap"):
+    if cl & {"C10.b", "C10.c"} and run.plan.get("supply_targets") and run.adapter.name in ("td3", "td3_lap", "td7"):
         mons.append(TargetActionMonitor(run))
     return mons
 
@@ -49,8 +49,13 @@ class TargetActionMonitor:
 
     def __init__(self, run):
         self.run = run
-        probe(run.comps["q_target"], "qt", run.recorder)
-        probe(run.comps["policy_target"], "pt", run.recorder)
+        if run.adapter.name == "td7":
+            # TD7: the target critic is called with (obs ++ action, zsa=, zs=), the target actor with (obs, zs)
+            probe(run.comps["critic_target"], "qt", run.recorder)
+            probe(run.comps["actor_target"], "pt", run.recorder)
+        else:
+            probe(run.comps["q_target"], "qt", run.recorder)
+            probe(run.comps["policy_target"], "pt", run.recorder)
 
     def finish(self):
         run = self.run
@@ -817,6 +822,7 @@ class ScheduleMonitor:
                 if getattr(ad, "dynamic_markers", False) and exp:
                     es["epoch"] += len(exp)
             have_log = run.logger is not None
+            self.iter_start = seg[0]
             if have_log and any(e[0] is not None for e in exp) or (have_log and markers):
                 self.check_markers(seg, markers, exp, k)
             else:
@@ -1044,8 +1050,10 @@ class ScheduleMonitor:
                         run.res.fault("tau_0")
                     if tau == 1.0:
                         run.res.fault("tau_1")
-            elif kind in ("hard", "hard_from_old"):
-                srcsnap = a if kind == "hard_from_old" else b
+            elif kind in ("hard", "hard_from_old", "hard_from_start"):
+                # hard_from_start: the copy must equal the source as it was when the iteration began (TD7: the checkpoint keeps
+                # the policy that was ASSESSED, i.e. before the training steps released in the same iteration)
+                srcsnap = a if kind == "hard_from_old" else getattr(self, "iter_start", None) or a if kind == "hard_from_start" else b
                 if src not in srcsnap.leaves:
                     run.res.unchecked += 1
                     continue
